@@ -47,7 +47,7 @@ Lemma eq_order_flags c :
              (is_none (c_cmp c) && is_false (c_eq c) && is_true (order_arg c)) = true)
   end end.
 Proof.
-  destruct c as [a ad sl fr ini rp st cmp eq ord h uh gs ma own inh].
+  destruct c as [a ad sl fr ini rp st cmp eq ord h uh gs ma own inh bk].
   destruct a, cmp, eq, ord as [[]|]; cbn; auto.
 Qed.
 
@@ -59,6 +59,7 @@ Proof.
   destruct (c_api c) eqn:Ha, (c_cmp c) eqn:Hc; try reflexivity;
   (destruct (determine_attrs_eq_order _ (c_eq c) (order_arg c)) as [[e o]|];
    [ destruct HF as (-> & -> & -> & ->) | destruct HF as [-> | [-> ->]]; reflexivity ]);
+  unfold inherits_attrs_getstate;
   rewrite !dwti_generic, !own_is_class_defines;
   unfold writes_of, spec_hash;
   change (class_defines c Dsa) with (body_defines c Dsa || false); rewrite orb_false_r;
@@ -68,7 +69,7 @@ Proof.
     with (generate c GEq);
   change (match explicit_flag c GOrder with tN => if auto_detect c && existsb (class_defines c) order_dunders then false else true | tT => true | tF => false end)
     with (generate c GOrder);
-  change (match c_gs c with tN => if auto_detect c && existsb (class_defines c) gs_dunders then false else slots c | tT => true | tF => false end)
+  change (match c_gs c with tN => if auto_detect c && existsb (class_defines c) gs_dunders then false else slots c || (base_generated_pair (c_base c) && negb (class_defines c Dg)) | tT => true | tF => false end)
     with (generate c GPickle);
   change (match c_repr c with tN => if auto_detect c && existsb (class_defines c) repr_dunders then false else true | tT => true | tF => false end)
     with (generate c GRepr);
